@@ -277,7 +277,7 @@ class Race(Part):
              dict(senders=[[2, 3]], drop=True, mode="walk", max_execs=30000),
              dict(senders=[[2], [3]], drop=True, mode="walk", max_execs=30000),
              dict(senders=[[2, 3, 4]], drop=True, mode="walk", max_execs=20000),
-             dict(senders=[[2, 3]], drop=True, mode="dfs", max_execs=150000)]
+             dict(senders=[[2, 3]], drop=True, mode="dfs", max_execs=80000)]
         cs = q + (t if tier == "thorough" else [])
         out = []
         for c in cs:
